@@ -82,9 +82,14 @@ func verifCheckAgainstGhost(q *QueueImpl, g *verifGhost) {
 // verifStep performs one symbolic operation on q and g and checks the
 // operation's contract.
 func verifStep(q *QueueImpl, g *verifGhost) {
-	switch verif.Choice("op", 4) {
+	// One case split per step: 0 = Next, then (op, torrent) pairs.
+	c := verif.Choice("op", 1+3*verifNT)
+	op, t := 1, 0
+	if c > 0 {
+		op, t = []int{0, 2, 3}[(c-1)/verifNT], (c-1)%verifNT
+	}
+	switch op {
 	case 0: // Add: documented precondition: torrent not in the queue.
-		t := verif.Choice("torrent", verifNT)
 		if g.st[t] != verifAbsent {
 			verif.Assume(false)
 		}
@@ -105,7 +110,6 @@ func verifStep(q *QueueImpl, g *verifGhost) {
 			g.st[head] = verifInFlight
 		}
 	case 2: // Ready: any torrent, in any state.
-		t := verif.Choice("torrent", verifNT)
 		q.Ready(verifHash(t))
 		if g.st[t] == verifInFlight {
 			verif.Reach("ready-after-in-flight")
@@ -116,7 +120,6 @@ func verifStep(q *QueueImpl, g *verifGhost) {
 			verif.Reach("ready-without-in-flight-is-noop")
 		}
 	case 3: // Eject: any torrent, in any state.
-		t := verif.Choice("torrent", verifNT)
 		q.Eject(verifHash(t))
 		switch g.st[t] {
 		case verifReady:
@@ -137,7 +140,7 @@ func verifStep(q *QueueImpl, g *verifGhost) {
 // VerifQueueHistory: all histories of length k over 3 torrents from the empty
 // queue.
 func VerifQueueHistory() {
-	k := verif.Bound("steps", 5, 7)
+	k := verif.Bound("steps", 3, 6)
 	q := New()
 	g := &verifGhost{}
 	for i := 0; i < k; i++ {
@@ -151,7 +154,7 @@ func VerifQueueHistory() {
 // with the model; a torrent handed out once is not handed out again before
 // Ready.
 func VerifQueueHistoryObservable() {
-	k := verif.Bound("steps_observable", 4, 6)
+	k := verif.Bound("steps_observable", 3, 5)
 	q := New()
 	g := &verifGhost{}
 	for i := 0; i < k; i++ {
